@@ -48,6 +48,15 @@ fn check(acc: &mut Acc, reg: &Registry, s: &dyn Subject, case: &Case, src: Sourc
             );
         }
         acc.count("handover_sets_compared_with_model");
+        // what an Unexpected report says must be true of the payload too: the number and bound, the string and its
+        // number of characters, the key (the model lists the facts, the message has to contain them)
+        let held: Vec<&monitor::Report> = run.reports().collect();
+        if pred.reports.len() == held.len() {
+            if let Some(d) = unexpected_facts(&pred, &held) {
+                let at = ctor_at(reg, s, &case.payload, &d.loc);
+                acc.violation(format!("C04/{}/{}", d.rule, at), d.rule, witness(s, &case.payload, src, &script, &run, json!({"what": d.detail})));
+            }
+        }
     }
     acc.sample(|| json!({"subject": s.name(), "payload": case.payload.show(), "source": src.name(), "script": format!("{script:?}"), "trace": run.trace_lines(12)}));
 }
@@ -76,6 +85,30 @@ pub fn run(ctx: &Ctx, reg: &Registry) -> i32 {
                 check(&mut acc, reg, s, &case, Source::Ov, Script::BreakFrom((i % 5) as u32), false);
                 if case.payload.json_representable() {
                     check(&mut acc, reg, s, &case, Source::Json, Script::Continue, true);
+                }
+            }
+            // (a') repeated members (second value source): the rules that do not need a location to name ONE node —
+            // an unknown key is never among the accepted keys, a missing field is never present
+            for i in 0..n_cases / 4 {
+                if !shard_of(si as u64 * n_cases + i, shard, n) {
+                    continue;
+                }
+                let case = gen_case_h(reg, s, ctx.seed.wrapping_add(4040), i, Host { dup: true, nonfinite: false, noncanon: false, alias: false });
+                if unique_keys(&case.payload) {
+                    continue;
+                }
+                let run = run_case(s, &case.payload, Source::Ov, Script::Continue);
+                account(&mut acc, s, &case, &run);
+                acc.count("repeated_member_payloads");
+                for r in run.reports() {
+                    let bad = match &r.kind {
+                        monitor::RKind::UnknownKey { key, accepted } if accepted.contains(key) => Some(("unknown-key-is-accepted", format!("key {key:?} is among the accepted keys {accepted:?}"))),
+                        _ => None,
+                    };
+                    if let Some((rule, what)) = bad {
+                        let at = ctor_at(reg, s, &case.payload, &r.loc);
+                        acc.violation(format!("C04/{rule}/{at}"), rule, witness(s, &case.payload, Source::Ov, &Script::Continue, &run, json!({"what": what})));
+                    }
                 }
             }
             // (b) systematic: a fault at EVERY position of a valid payload, one at a time and in pairs
